@@ -1,5 +1,8 @@
 import UgoVerif.Proofs.JsonEnc
 import UgoVerif.Proofs.JsonScan
+import UgoVerif.Proofs.JsonScanSpec
+import UgoVerif.Proofs.JsonCompact2
+import UgoVerif.Proofs.JsonIndent
 /-
   C17 — the json module produces and accepts exactly standard JSON.
 
@@ -11,13 +14,16 @@ import UgoVerif.Proofs.JsonScan
           implementation vs encoding/json as the property's own oracle)
 
   Proved here for ALL values / byte strings: string escaping always yields a JSON string
-  token (`escape_valid`); Marshal output is a JSON text (`marshal_valid_partial`, see the
-  two side conditions); a value holding an object without encoder is never given a
-  document (`marshal_unsupported_is_error`).  The full statement is `C17_full`; what is
-  not proved is listed beside it.
+  token (`escape_valid`); Marshal output is a JSON text (`marshal_valid`, one side condition:
+  the open finding); a value holding an object without encoder is never given a
+  document (`marshal_unsupported_is_error`); the scanner automaton accepts exactly the JSON
+  texts nested at most `maxNestingDepth` deep (`scanner_exact`, `scanner_sound`,
+  `scanner_complete`); `compact` never panics and writes one JSON value (`compact_valid`).
+  The full statement is `C17_full`; what is not proved is listed beside it.
 -/
 namespace UgoVerif.Props.C17
 open UgoVerif UgoVerif.Go UgoVerif.Model.JsonEnc UgoVerif.Model.JsonScan UgoVerif.Spec.Json UgoVerif.Proofs.Json
+open UgoVerif.Gen.JsonTables (maxNestingDepth)
 
 /-! ### string escaping -/
 
@@ -108,6 +114,104 @@ theorem marshal_full_false : ¬ marshal_full := by
   have := h L0 L0_ok .errval [] rfl
   exact absurd this (by decide)
 
+/-! ### the scanner accepts exactly standard JSON (up to the nesting limit) -/
+
+/-- **`Valid` = the RFC 8259 recogniser with the nesting budget `maxNestingDepth`**, for every
+    byte string: the 31-state automaton with its parse stack (`stdlib/json/scanner.go`) and the
+    recursive-descent reading of the grammar (`Spec/JsonDepth.lean`) give the same verdict.
+    (`isJsonD d` = `isJson` where arrays/objects may be nested at most `d` deep.) -/
+theorem scanner_exact (bs : Bytes) : valid bs = .ok (isJsonD maxNestingDepth bs) :=
+  valid_eq bs
+
+/-- soundness: what the scanner accepts is a JSON text (RFC 8259 recogniser, no depth limit) -/
+theorem scanner_sound (bs : Bytes) (h : valid bs = .ok true) : isJson bs = true := by
+  rw [scanner_exact] at h
+  injection h with h
+  exact isJsonD_isJson _ _ h
+
+/-- completeness: a JSON text nested at most `maxNestingDepth` deep is accepted -/
+theorem scanner_complete (bs : Bytes) (h : isJsonD maxNestingDepth bs = true) : valid bs = .ok true := by
+  rw [scanner_exact, h]
+
+/-- the nesting-budget recogniser is the plain one restricted by depth: it implies `isJson`,
+    every JSON text has a finite depth, and a larger budget accepts more -/
+theorem depth_spec :
+    (∀ d bs, isJsonD d bs = true → isJson bs = true) ∧
+    (∀ bs, isJson bs = true → isJsonD (bs.length + 1) bs = true) ∧
+    (∀ d d' bs, d ≤ d' → isJsonD d bs = true → isJsonD d' bs = true) :=
+  ⟨isJsonD_isJson, isJson_isJsonD, isJsonD_mono⟩
+
+/-- the only JSON texts the scanner rejects are those nested deeper than the limit -/
+theorem scanner_rejects_only_deep (bs : Bytes) (_hj : isJson bs = true) (h : valid bs = .ok false) :
+    isJsonD maxNestingDepth bs = false := by
+  rw [scanner_exact] at h
+  injection h
+
+example : valid [0x5B, 0x31, 0x2C, 0x20, 0x7B, 0x22, 0x61, 0x22, 0x3A, 0x6E, 0x75, 0x6C, 0x6C, 0x7D, 0x5D] = .ok true := by
+  decide
+set_option linter.unusedSimpArgs false in
+example : isJsonD 1 [0x5B, 0x5B, 0x5D, 0x5D] = false ∧ isJsonD 2 [0x5B, 0x5B, 0x5D, 0x5D] = true
+    ∧ isJson [0x5B, 0x5B, 0x5D, 0x5D] = true := by
+  refine ⟨?_, ?_, ?_⟩ <;> simp [isJsonD, isJson, skipWs, isWs, valueD, arrTailD, value, arrTail]
+
+/-! ### Compact -/
+
+/-- **`compact` (with or without HTML escaping) never panics**: no `src[start:i]` goes out of
+    range and the scanner never indexes an empty parse stack. -/
+theorem compact_no_panic (escape : Bool) (src : Bytes) : ∃ o, compact escape src = .ok o :=
+  compact_ok escape src
+
+/-- **What `compact` writes is one JSON value**: a JSON text (nested at most `maxNestingDepth`
+    deep) that starts and ends with a byte that is not white space, so that it can stand as an
+    element or member value (`IsVal`).  For all inputs and both settings of `escape`. -/
+theorem compact_valid (escape : Bool) (src out : Bytes) (h : compact escape src = .ok (some out)) :
+    isJson out = true ∧ isJsonD maxNestingDepth out = true ∧ valid out = .ok true ∧ IsVal out := by
+  obtain ⟨h1, h2⟩ := Proofs.Json.compact_valid escape src out h
+  exact ⟨h1.isJson, h2, scanner_complete out h2, h1⟩
+
+example : compact true [0x20, 0x5B, 0x22, 0x3C, 0x22, 0x20, 0x5D, 0x0A] =
+    .ok (some [0x5B, 0x22, 0x5C, 0x75, 0x30, 0x30, 0x33, 0x63, 0x22, 0x5D]) := by decide
+
+/-- **`compact` returns bytes exactly for the inputs `Valid` accepts** (for the others it returns
+    the scanner's error), with or without HTML escaping -/
+theorem compact_accepts_iff_valid (escape : Bool) (src : Bytes) :
+    (∃ out, compact escape src = .ok (some out)) ↔ valid src = .ok true :=
+  compact_some_iff escape src
+
+/-- the side condition of `marshal_valid_partial` on raw messages holds for every byte string -/
+theorem compactWritesValue_all (src : Bytes) : CompactWritesValue src :=
+  fun esc out h => (Proofs.Json.compact_valid esc src out h).1
+
+mutual
+theorem rawsOK_all (P : Bytes → Prop) (hP : ∀ b, P b) : ∀ v : JV, rawsOK P v
+  | .raw b => by simp only [rawsOK]; exact hP b
+  | .rawNil => by simp only [rawsOK]; exact hP _
+  | .array xs => by simp only [rawsOK]; exact rawsOKL_all P hP xs
+  | .map kvs => by simp only [rawsOK]; exact rawsOKM_all P hP kvs
+  | .opts _ _ v => by simp only [rawsOK]; exact rawsOK_all P hP v
+  | .ptr v => by simp only [rawsOK]; exact rawsOK_all P hP v
+  | .undefined | .nil | .int _ | .uint _ | .float _ | .char _ | .bool _ | .str _ | .bytes _
+  | .ptrNil | .errval | .opaque _ => by simp only [rawsOK]
+theorem rawsOKL_all (P : Bytes → Prop) (hP : ∀ b, P b) : ∀ xs : List JV, rawsOKL P xs
+  | [] => by simp only [rawsOKL]
+  | x :: xs => by simp only [rawsOKL]; exact ⟨rawsOK_all P hP x, rawsOKL_all P hP xs⟩
+theorem rawsOKM_all (P : Bytes → Prop) (hP : ∀ b, P b) : ∀ kvs : List (Bytes × JV), rawsOKM P kvs
+  | [] => by simp only [rawsOKM]
+  | (_, x) :: xs => by simp only [rawsOKM]; exact ⟨rawsOK_all P hP x, rawsOKM_all P hP xs⟩
+end
+
+/-- **Marshal returns an error or a JSON text** — every value type (raw messages / `Marshaler`
+    results included: their bytes go through `compact`, see `compact_valid`), arbitrary
+    nesting, both options anywhere in the value.  The only side condition left is the open
+    finding: the whole document is not a bare error value (`marshal_full_false`). -/
+theorem marshal_valid (L : JsonLib) (hL : L.OK) (v : JV) (bs : Bytes)
+    (hTop : isTopErr v = false) (h : marshal L v = .ok bs) : isJson bs = true :=
+  marshal_valid_partial L hL v bs hTop (rawsOK_all _ compactWritesValue_all v) h
+
+-- non-vacuity: a raw message with white space and an HTML-sensitive byte inside an array
+example : marshal L0 (.array [.raw [0x20, 0x22, 0x3C, 0x22, 0x20], .rawNil]) =
+    .ok [0x5B, 0x22, 0x5C, 0x75, 0x30, 0x30, 0x33, 0x63, 0x22, 0x2C, 0x6E, 0x75, 0x6C, 0x6C, 0x5D] := by decide
+
 /-! ### the scanner never panics -/
 
 /-- `valid` (checkValid over the scanner automaton) returns a verdict for every byte string:
@@ -127,19 +231,45 @@ theorem indent_no_panic (pre ind bs : Bytes) : ∃ o, indent pre ind bs = .ok o 
 
 example : valid [0x7B, 0x7D] = .ok true ∧ valid [0x7D] = .ok false := by decide
 
+/-- **`indentBuffer` returns bytes exactly for the inputs `Valid` accepts** (any prefix/indent);
+    hence Valid, Compact and Indent accept the same documents: those of `scanner_exact` -/
+theorem indent_accepts_iff_valid (pre ind src : Bytes) :
+    (∃ out, indent pre ind src = .ok (some out)) ↔ valid src = .ok true :=
+  indent_some_iff pre ind src
+
 /-! ### the full statement -/
 
-/-- C17 at full strength over the model.  Proved: the Marshal half (`marshal_valid_partial`,
-    `marshal_unsupported_is_error`, `escape_valid`) up to the two side conditions.  Not
-    proved (tested by the `json` stream on every generated byte string, against the
-    implementation and against encoding/json): that the scanner automaton accepts exactly the
-    JSON texts of nesting depth ≤ 10000, that Compact and Indent map JSON texts to JSON
-    texts, and the round trip through Unmarshal (the decoder is not modelled). -/
+/-- C17 at full strength over the model.  Proved: the Marshal half (`marshal_valid`,
+    `marshal_unsupported_is_error`, `escape_valid`) up to the open finding, the scanner half
+    (`scanner_exact`: second conjunct below, and its converse up to the nesting limit), the
+    Compact half (`compact_valid`: third conjunct; `compact_no_panic`).  Not proved (tested by
+    the `json` stream on every generated byte string, against the implementation and against
+    encoding/json): that Indent maps JSON texts to JSON texts (only `indent_no_panic`), that
+    Compact/Indent keep the document's value, and the round trip through Unmarshal (the
+    decoder is not modelled). -/
 def C17_full : Prop :=
   marshal_full
   ∧ (∀ bs, valid bs = .ok true → isJson bs = true)                                   -- scanner_sound
   ∧ (∀ bs out esc, compact esc bs = .ok (some out) → isJson out = true)                -- compact
-  ∧ (∀ bs out p i, isJson bs = true → indent p i bs = .ok (some out) → isJson out = true)  -- indent
+  ∧ (∀ bs out p i, (∀ x ∈ p, isWs x = true) → (∀ x ∈ i, isWs x = true) →              -- indent
+      isJson bs = true → indent p i bs = .ok (some out) → isJson out = true)
+
+/-- the restriction to white-space prefix/indent strings in the last conjunct is necessary: like
+    encoding/json.Indent, `indent` copies `prefix` and `indent` verbatim -/
+theorem indent_needs_ws_prefix :
+    ¬ (∀ bs out p i, isJson bs = true → indent p i bs = .ok (some out) → isJson out = true) := by
+  intro h
+  have h1 : isJson [0x5B, 0x31, 0x5D] = true := by
+    simp [isJson, skipWs, isWs, value, arrTail, number, optMinus, intPart, isDigit, skipDigits, fracPart, expPart]
+  have h2 : indent [0x78] [] [0x5B, 0x31, 0x5D] = .ok (some [0x5B, 0x0A, 0x78, 0x31, 0x0A, 0x78, 0x5D]) := by decide
+  have h3 := h _ _ _ _ h1 h2
+  simp [isJson, skipWs, isWs, value, isDigit] at h3
+
+/-- the second and third conjunct of `C17_full` hold -/
+theorem C17_scanner_compact :
+    (∀ bs, valid bs = .ok true → isJson bs = true) ∧
+    (∀ bs out esc, compact esc bs = .ok (some out) → isJson out = true) :=
+  ⟨scanner_sound, fun bs out esc h => (compact_valid esc bs out h).1⟩
 
 theorem C17_full_false : ¬ C17_full := fun h => marshal_full_false h.1
 
